@@ -47,9 +47,18 @@ func findLookup(p *Prog) (*lookupInfo, error) {
 				if !ok || c.Call.StaticCallee() != li.Lookup {
 					continue
 				}
-				if g, ok := c.Call.Args[0].(*ssa.Call); ok && g.Call.StaticCallee() != nil && g.Call.StaticCallee().Pkg == p.SSAPkg[p.LicPkg.PkgPath] {
+				lst := c.Call.Args[0]
+				for {
+					// a conversion to a named list type (idList(GetLicenses())) is still that list
+					ct, isCT := lst.(*ssa.ChangeType)
+					if !isCT {
+						break
+					}
+					lst = ct.X
+				}
+				if g, ok := lst.(*ssa.Call); ok && g.Call.StaticCallee() != nil && g.Call.StaticCallee().Pkg == p.SSAPkg[p.LicPkg.PkgPath] {
 					li.Wrappers[f] = g.Call.StaticCallee().Name()
-				} else if g, ok := c.Call.Args[0].(*ssa.Call); ok && g.Call.StaticCallee() == nil {
+				} else if g, ok := lst.(*ssa.Call); ok && g.Call.StaticCallee() == nil {
 					// the list comes from a getter handed in as a parameter: the callers that pass a table
 					// getter are the wrappers of that table
 					idx := -1
